@@ -180,6 +180,10 @@ func (a *TCPAllocation) serverTCPAddr() (*net.TCPAddr, error) {
 
 // DialTCP acts like Dial for TCP networks.
 func (a *TCPAllocation) DialTCP(network string, lAddr, rAddr *net.TCPAddr) (*TCPConn, error) {
+	if err := a.dialErr(rAddr); err != nil {
+		return nil, err
+	}
+
 	rAddrServer, err := a.serverTCPAddr()
 	if err != nil {
 		return nil, err
@@ -201,6 +205,10 @@ func (a *TCPAllocation) DialTCP(network string, lAddr, rAddr *net.TCPAddr) (*TCP
 // DialTCPWithConn acts like DialWithConn for TCP networks.
 func (a *TCPAllocation) DialTCPWithConn(conn net.Conn, _ string, rAddr *net.TCPAddr) (*TCPConn, error) {
 	var err error
+
+	if err = a.dialErr(rAddr); err != nil {
+		return nil, err
+	}
 
 	// Check if we have a permission for the destination IP addr
 	perm := a.permMap.findOrCreate(rAddr)
@@ -242,6 +250,17 @@ func (a *TCPAllocation) DialTCPWithConn(conn net.Conn, _ string, rAddr *net.TCPA
 	}
 
 	return dataConn, nil
+}
+
+// dialErr returns the error of a Dial that cannot succeed: a closed
+// allocation refuses every Dial, as it fails every Accept.
+func (a *TCPAllocation) dialErr(rAddr *net.TCPAddr) error {
+	select {
+	case <-a.closeCh:
+		return &net.OpError{Op: "dial", Net: a.Addr().Network(), Source: a.Addr(), Addr: rAddr, Err: net.ErrClosed}
+	default:
+		return nil
+	}
 }
 
 // BindConnection associates the provided connection.
